@@ -29,7 +29,7 @@ FORMS = ["embedding", "nn_gelu", "nn_softmax", "linear_2arg", "bias_kw", "conv1d
 
 
 def gen_cases(tier: str, seed: int) -> List[Dict[str, Any]]:
-    n = 352 if tier == "quick" else 6000
+    n = 352 if tier == "quick" else 18000
     cases = []
     for i in range(n):
         rng = rng_for(seed, PROPERTY, "prof", i)
